@@ -8,7 +8,7 @@ from .common import call
 
 PROP = "C09"
 LEVEL = "exploration"
-CASES = {"quick": 900, "thorough": 45000}
+CASES = {"quick": 900, "thorough": 600000}
 SHARDS = {"quick": 8, "thorough": 16}
 ANCHORS = ["api.py:chain", "api.py:_eq", "api.py:_in", "api.py:Converter.get_subconverter", "api.py:Converter.add_record", "api.py:Converter._merge"]
 DECIDING = ["chain", "get_subconverter", "sub-answers", "chain-of-one-answers"]
